@@ -565,6 +565,21 @@ def make_irregular_nan(rng, n=6, m=11):
     return IrregularFunctionalData(IrregularArgvals(av), IrregularValues(va))
 
 
+def make_irregular_disjoint(rng, n=6, m=11):
+    """NaN-encoded irregular data in which some pairs of grid points are NEVER observed on the same curve (the first
+    grid point only on the first half of the curves, the last one only on the second half): the raw covariance has cells
+    with no contribution at all."""
+    d = make_irregular_nan(rng, n=n, m=m)
+    for i in range(n):
+        v = d.values[i]
+        v[0 if i >= n // 2 else m - 1] = np.nan
+        if i < n // 2 and np.isnan(v[0]):
+            v[0] = 0.25 * (i + 1)
+        if i >= n // 2 and np.isnan(v[m - 1]):
+            v[m - 1] = -0.5 * (i + 1)
+    return d
+
+
 def make_irregular_sparsified(seed):
     """the real sparsifier (seeded): KarhunenLoeve(...).new(); .sparsify()"""
     from FDApy.simulation.karhunen import KarhunenLoeve
@@ -608,7 +623,8 @@ def make_multi(rng, kind):
     return fd.multivariate(parts)
 
 
-DATA_KINDS = ["dense1d", "dense1d-nonuniform", "dense2d", "irregular", "irregular-const", "irregular-nan", "irregular-sparsified",
+DATA_KINDS = ["dense1d", "dense1d-nonuniform", "dense2d", "irregular", "irregular-const", "irregular-nan", "irregular-disjoint",
+              "irregular-sparsified",
               "basis-given", "basis-fourier", "multi-dd", "multi-di", "multi-dn", "multi-d2", "multi-db"]
 
 
@@ -626,6 +642,8 @@ def make_data(kind, seed):
         return make_irregular(rng, zv=True)
     if kind == "irregular-nan":
         return make_irregular_nan(rng)
+    if kind == "irregular-disjoint":
+        return make_irregular_disjoint(rng)
     if kind == "irregular-sparsified":
         return make_irregular_sparsified(seed)
     if kind == "basis-given":
